@@ -290,6 +290,40 @@ def Client.changeSigScheme (c : Client Blob) (addr scheme : String) : Except Err
       if !checkSigScheme a.alg scheme then .error .sigScheme
       else .ok ({ c with heap := hset c.heap id { a with sigScheme := scheme } } : Client Blob).save
 
+/-- Outcome of `WalletData.reencrypt` (`ToLowSecurity` / `ToDefaultSecurity`), called on the client's live wallet data. -/
+inductive ReencOut (Blob : Type) where
+  | ok (c : Client Blob)
+  | countMismatch            -- "not enough passwords for the accounts"
+  | failed (i : Nat)         -- account i does not decrypt to a key of its address: nothing is changed
+
+/-- first pass of `reencrypt`: every listed account is decrypted with its password under the current parameters, the
+key must belong to the stored address (after `fix:`), and is re-protected under `newParams`; the wallet is not touched
+yet. -/
+def reencPass (c : Client Blob) (newParams : Params) :
+    List (Nat × Acc Blob) → List Bytes → Nat → List (Nat × Acc Blob) → Except (ReencOut Blob) (List (Nat × Acc Blob))
+  | [], _, _, acc => .ok acc.reverse
+  | _ :: _, [], i, _ => .error (.failed i)
+  | (id, a) :: rest, pw :: pws, i, acc =>
+    match cr.unprotect a.blob pw c.params with
+    | none => .error (.failed i)
+    | some k =>
+      if cr.addrOf k ≠ a.address then .error (.failed i)
+      else reencPass c newParams rest pws (i + 1) ((id, { a with blob := cr.protect k a.address pw newParams [] }) :: acc)
+
+/-- `reencrypt passwords param`: all-or-nothing — the new blobs are installed and `Scrypt` is switched only when
+every account decrypted (the file is not written by this function). `none` = library defaults (after `fix:` the nil
+parameter is resolved before use; it used to crash the encryptor). -/
+def Client.reencrypt (c : Client Blob) (passwords : List Bytes) (newParams : Option Params) : ReencOut Blob :=
+  let listed := c.accounts.filterMap (fun id => (hget c.heap id).map (fun a => (id, a)))
+  let ps := newParams.getD defaultParams
+  if passwords.length ≠ listed.length then .countMismatch
+  else
+    match reencPass cr c ps listed passwords 0 [] with
+    | .error e => e
+    | .ok news =>
+      let heap := news.foldl (fun h (ia : Nat × Acc Blob) => hset h ia.1 ia.2) c.heap
+      .ok { c with heap := heap, params := ps }
+
 /-- `GetAccountNum` = `len(accAddrs)` -/
 def Client.num (c : Client Blob) : Nat := c.accAddrs.length
 
